@@ -45,6 +45,53 @@ def declared_sortable(lines):
     return False
 
 
+def request(lines, mode):
+    """The reader.run request (implementation and model) for one file in one mode."""
+    allf = [p for l in lines for p in l.rstrip("\r\n").split("\t")]
+    return {"op": "reader.run", "lines": lines, "mode": mode, "floats": float_table(allf)}
+
+
+def oracle(lines, mode, i):
+    """The property on the implementation's answer `i` to reading `lines` in `mode`: the failure dicts (at most one)."""
+    where = {"lines": lines, "mode": mode}
+    exc = i.get("init_exc") or i.get("iter_exc")
+    sortable = declared_sortable(lines)
+    if exc:
+        ok = (mode == "Strict" and exc.startswith("MafFormatException:")) or (sortable and exc == "ValueError" and "iter_exc" in i and i.get("iter_exc"))
+        if not ok:
+            return [dict(where, what="reading failed with %s, which is neither the format exception in Strict mode nor the documented ordering error" % exc,
+                         kind="undocumented-exception", exception=exc, stage="init" if i.get("init_exc") else "iteration")]
+        return []
+    want = body_count(lines)
+    if len(i["records"]) != want:
+        return [dict(where, what="yielded %d records for %d lines after the column line" % (len(i["records"]), want), kind="count")]
+    return []
+
+
+def eval_read(r, m):
+    """One read (shared by run and replay_case): executed on the implementation, compared with the model's answer `m`
+    (None = model not consulted) and judged by the oracle.
+    Returns (implementation answer, correspondence, failures); correspondence is None / "agree" / "unmodelled" / "dontcare" / a disagreement dict."""
+    lines, mode = r["lines"], r["mode"]
+    i = impl.run(r)
+    corr = None
+    if m is not None:
+        corr = "agree"
+        if has_unmodelled(m):
+            corr = "unmodelled"
+        elif m != i:
+            from .. import colcases
+            dc = any(colcases.dontcare_numeric(p) or colcases.dontcare_uuid(p) for l in lines for f in l.split("\t") for p in [f] + f.split(";"))
+            if dc:
+                corr = "dontcare"
+            else:
+                keys = [k for k in sorted(set(m) | set(i)) if m.get(k) != i.get(k)]
+                corr = {"op": "reader.run", "lines": lines, "mode": mode, "differs": keys,
+                        "model": {k: m.get(k) for k in keys if k != "records"},
+                        "impl": {k: i.get(k) for k in keys if k != "records"}}
+    return i, corr, oracle(lines, mode, i)
+
+
 def run(ctx):
     out = Outcome()
     out.rule = ("random files over an adversarial alphabet (pragmas in any position, blank lines, wrong counts, invalid fields, control / non-ASCII characters, "
@@ -55,45 +102,70 @@ def run(ctx):
     for _ in range(ctx.scale(500, 6000)):
         lines = gen_file(rng)
         for mode in MODES:
-            allf = [p for l in lines for p in l.rstrip("\r\n").split("\t")]
-            reqs.append({"op": "reader.run", "lines": lines, "mode": mode, "floats": float_table(allf)})
+            reqs.append(request(lines, mode))
     mo = ctx.driver.run(reqs)
     for r, m in zip(reqs, mo):
         out.evaluations += 1
         lines, mode = r["lines"], r["mode"]
-        i = impl.run(r)
-        if has_unmodelled(m):
+        i, corr, failures = eval_read(r, m)
+        if corr == "unmodelled":
             out.unmodelled += 1
-        elif m != i:
-            from .. import colcases
-            dc = any(colcases.dontcare_numeric(p) or colcases.dontcare_uuid(p) for l in lines for f in l.split("\t") for p in [f] + f.split(";"))
-            if dc:
-                out.dontcare += 1
-            else:
-                keys = [k for k in sorted(set(m) | set(i)) if m.get(k) != i.get(k)]
-                out.disagreements.append({"op": "reader.run", "lines": lines, "mode": mode, "differs": keys,
-                                          "model": {k: m.get(k) for k in keys if k != "records"},
-                                          "impl": {k: i.get(k) for k in keys if k != "records"}})
-        where = {"lines": lines, "mode": mode}
+        elif corr == "dontcare":
+            out.dontcare += 1
+        elif isinstance(corr, dict):
+            out.disagreements.append(corr)
         exc = i.get("init_exc") or i.get("iter_exc")
-        sortable = declared_sortable(lines)
         if exc:
             out.distribution["exc:" + exc.split(":")[0]] += 1
-            ok = (mode == "Strict" and exc.startswith("MafFormatException:")) or (sortable and exc == "ValueError" and "iter_exc" in i and i.get("iter_exc"))
-            if not ok:
-                out.failures.append(dict(where, what="reading failed with %s, which is neither the format exception in Strict mode nor the documented ordering error" % exc,
-                                         kind="undocumented-exception", exception=exc, stage="init" if i.get("init_exc") else "iteration"))
         else:
             out.distribution["completed"] += 1
-            want = body_count(lines)
-            if len(i["records"]) != want:
-                out.failures.append(dict(where, what="yielded %d records for %d lines after the column line" % (len(i["records"]), want),
-                                         kind="count"))
+        out.failures += failures
         if body_count(lines) or any(l.startswith("#") for l in lines):
             out.nontrivial.add(repr(lines))
         if len(out.samples) < 4 and body_count(lines) > 1:
             out.sample({"lines": [l[:80] for l in lines[:6]], "mode": mode, "outcome": exc or "completed"})
     return out
+
+
+def _brief(a):
+    """What a reader.run answer says, in one line."""
+    if a is None:
+        return "(not available)"
+    if "init_exc" in a:
+        return "constructing the reader raised %s" % a["init_exc"]
+    return "scheme=%s, %d record(s) yielded, iteration %s, %d validation error(s)%s" % (
+        (a.get("scheme") or {}).get("annotation"), len(a.get("records", [])),
+        "raised %s" % a["iter_exc"] if a.get("iter_exc") else "completed", len(a.get("errors", [])),
+        (" %s" % a["errors"][:4]) if a.get("errors") else "")
+
+
+def replay_case(ctx, failure):
+    """Re-evaluate the stored failing input on the current implementation; return the list of failure dicts it
+    produces now (empty list = the property holds on that input)."""
+    lines, mode = failure.get("lines"), failure.get("mode")
+    if failure.get("kind") not in ("undocumented-exception", "count") or not isinstance(lines, list) or mode not in MODES:
+        return None
+    r = request(lines, mode)
+    m = None
+    if ctx.driver.available():
+        try:
+            m = ctx.driver.run([r])[0]
+        except Exception as e:  # noqa
+            print("model: driver failed (%s)" % str(e)[:200])
+    i, corr, failures = eval_read(r, m)
+    print("executed: MafReader(lines=<%d lines>, validation_stringency=%s), then iterated to the end" % (len(lines), mode))
+    for n, l in enumerate(lines[:12], start=1):
+        print("  line %d: %r" % (n, l[:100]))
+    print("  %d line(s) after the column line; sortable order declared: %s" % (body_count(lines), declared_sortable(lines)))
+    print("implementation: %s" % _brief(i))
+    if m is not None:
+        print("model:          %s" % (_brief(m) if corr != "unmodelled" else "input outside the model's domain"))
+        print("model vs implementation: %s" % (corr if isinstance(corr, str) else "differ in %s" % corr["differs"]))
+    for g in failures:
+        print("oracle: %s" % g["what"])
+    if not failures:
+        print("oracle: satisfied (%s)" % ("documented failure" if (i.get("init_exc") or i.get("iter_exc")) else "one record per line after the column line"))
+    return failures
 
 
 def shrink(ctx, f):
